@@ -241,3 +241,54 @@ Proof.
     now apply (split_at_preserves n).
   - rewrite app_nil_r. now apply merge_single_child_preserves.
 Qed.
+
+(* ---- rewrites anywhere in the tree ------------------------------------------------------------------------------------------------ *)
+Lemma side_b_sound r l : side_b r l = true ->
+  match r with
+  | RUnroll i => l_wf l = None \/ exists c, nth_error (l_ch l) i = Some c /\ (1 <= l_rep c)%nat
+  | RUnrollChildren => (1 <= l_rep l)%nat
+  | _ => True
+  end.
+Proof.
+  destruct r; cbn [side_b]; auto.
+  - intro H. apply orb_true_iff in H as [H|H].
+    + left. destruct (l_wf l); [discriminate | reflexivity].
+    + right. destruct (nth_error (l_ch l) i) as [c|]; [|discriminate]. exists c. split; auto. now apply Nat.leb_le.
+  - intro H. now apply Nat.leb_le.
+Qed.
+
+Theorem apply_at_spec path r : forall l l',
+  apply_at path r l = Some l' -> side_at path r l = true ->
+  ldur l' = ldur l /\ Permutation (loop_windows l' ++ lost_at path r l) (loop_windows l).
+Proof.
+  induction path as [|i rest IH]; intros l l' H Hs; cbn [apply_at lost_at side_at] in *.
+  - apply apply_rw_spec; auto. now apply side_b_sound.
+  - destruct l as [n wf ms ch]. cbn [l_ch] in Hs. destruct (nth_error ch i) as [c|] eqn:E; [|discriminate].
+    destruct (apply_at rest r c) as [c'|] eqn:Ec; [|discriminate]. injection H as <-.
+    destruct (IH c c' Ec Hs) as [Hd Hw].
+    pose proof (nth_error_split3 _ _ _ E) as Hsplit.
+    set (pre := firstn i ch) in *. set (post := skipn (S i) ch) in *.
+    destruct (replace_mid n wf ms pre [c] [c'] post (lost_at rest r c)) as [R1 R2].
+    + cbn [map sumc]. now rewrite Hd.
+    + right. split; destruct pre; discriminate.
+    + now rewrite !single_piece.
+    + change (ldur (Loop n wf ms (pre ++ [c'] ++ post)) = ldur (Loop n wf ms ch) /\
+              Permutation (loop_windows (Loop n wf ms (pre ++ [c'] ++ post)) ++
+                           tile n (body_of wf (map ldur ch)) (shift (sumc (map ldur pre)) (lost_at rest r c)))
+                          (loop_windows (Loop n wf ms ch))).
+      rewrite Hsplit. auto.
+Qed.
+
+(* any sequence of rewrites anywhere: the duration is kept, no window is ever added or moved, and the windows that
+   disappear are exactly the accumulated own windows of unrolled loops *)
+Theorem run_seq_spec steps : forall l l' lost,
+  run_seq steps l = Some (l', lost) -> sides_ok steps l = true ->
+  ldur l' = ldur l /\ Permutation (loop_windows l' ++ lost) (loop_windows l).
+Proof.
+  induction steps as [|[path r] rest IH]; intros l l' lost H Hs; cbn [run_seq sides_ok] in *.
+  - injection H as <- <-. rewrite app_nil_r. auto.
+  - apply andb_prop in Hs as [Hs1 Hs2]. destruct (apply_at path r l) as [l1|] eqn:E1; [|discriminate].
+    destruct (run_seq rest l1) as [[l2 lost2]|] eqn:E2; [|discriminate]. injection H as <- <-.
+    destruct (apply_at_spec path r l l1 E1 Hs1) as [A1 A2]. destruct (IH l1 l2 lost2 E2 Hs2) as [B1 B2].
+    split; [congruence|]. rewrite app_assoc. etransitivity; [apply Permutation_app_tail; exact B2 | exact A2].
+Qed.
